@@ -18,7 +18,9 @@ META = {
     'with seam-aware distances, mirrored/plain tables share the affine map '
     'and weights (R-grading-end, R-sym); the residual routes to the '
     'collinear closed form only on a polygonal curve and the same piece '
-    '(R-straight).',
+    '(R-straight); evaluate_vector hands time and parameter to evaluate '
+    'unchanged, with gamma of the same parameter, entry j for leaf j '
+    '(R-passthrough).',
     'checker_cmd': 'python3-vt -m stbem_static C07 --tier <tier>',
     'trusted_base': ['CPython ast', 'sympy', 'linear fact domain'],
 }
@@ -27,6 +29,7 @@ META = {
 def run(prog, report, tier):
     causal.run_sites(prog, report, files={kernels.SL, kernels.SLX})
     evalrules.check_grading_end(prog, report)
+    evalrules.check_evaluate_vector(prog, report)
     panels.check_sym(prog, report)
     quadalg.check_mirrors(prog, report)
     panels.check_straight(prog, report, which=('residual', ))
